@@ -29,6 +29,8 @@ SPEC = {
         {"pkg": "internal/netstate", "test": "TestVerifC19Race", "timeout": 900, "race": True, "tiers": ["thorough"]},
         # a consumer really running beside notify: only events that do not fit are dropped
         {"pkg": "internal/netstate", "test": "TestVerifC19Parallel", "timeout": 300, "arch386": []},
+        # the watcher's own socket overruns (ENOBUFS): Watch returns the error and closes every channel
+        {"pkg": "internal/netstate", "test": "TestVerifC19Overrun", "timeout": 300, "arch386": []},
     ],
     "rule": "each case is a script run on a fresh real Watcher with the watch hook injected: (1) every one of the 127 masks x 7 "
             "single changes x interface match/mismatch on its own watcher, and all masks at once per change; (2) slow subscribers: "
